@@ -83,7 +83,7 @@ CFG = {
     ),
     "theorems": [("C04.Props", ["C04_seq_map", "C04_seq_set", "C04_seq_map_state", "C04_seq_set_state", "C04_len_after_clear",
                                 "C04_lazy_once", "C04_spec_map_laws", "C04_lin_check_map", "C04_lin_check_set",
-                                "C04_lin_segments", "C04_range_ok_b",
+                                "C04_lin_segments", "C04_range_ok_b", "C04_lazy_calls_b",
                                 "C04_lazyskip_inv", "C04_lazyskip_sorted", "C04_lazyskip_abs_frame",
                                 "C04_lazyskip_inv2", "C04_lazyskip_lock_holder", "C04_lazyskip_lock_release",
                                 "C04_lazyskip_next_under_lock", "C04_lazyskip_no_deadlock",
